@@ -459,8 +459,23 @@ func runC11(w *World) {
 				self := append(append([]string{}, r.path...), r.name)
 				inside := len(dst) >= len(self) && strings.Join(dst[:len(self)], "\x00") == strings.Join(self, "\x00")
 				dd := root.lookup(dst)
+				if dd.Children[r.name] == nil && op.N[1]%3 == 0 && !r.e.Dir && r.e.Alias == "" && !r.e.Pinned && !r.e.Partial && !inside && strings.Join(dst, "\x00") != strings.Join(r.path, "\x00") {
+					// prepare the collision: a folder with the file's name in the destination
+					if rep, ok := c.Do(rp.TNewFolder, append([]rp.Field{rp.FS(rp.FFileName, r.name)}, PathField(dst)...)...); ok && rep.Err == 0 {
+						dd.Children[r.name] = newDir()
+					}
+				}
+				if clash := dd.Children[r.name]; clash != nil && clash.Dir && clash.Alias == "" && !r.e.Dir && r.e.Alias == "" && !r.e.Pinned && !r.e.Partial && !inside && strings.Join(dst, "\x00") != strings.Join(r.path, "\x00") {
+					// a file moved into a folder that holds a FOLDER of the same name: the move cannot happen, so the file
+					// stays - and its comment, type and resource fork stay with it (the model is left as it is; the
+					// listing and disk comparison after this step judge it)
+					c.Do(rp.TMoveFile, append(nameF(r), rp.F(rp.FFileNewPath, rp.FilePath(dst...)))...)
+					w.Probe("moves_onto_a_folder_of_the_same_name")
+					touched = append(touched, r.path, dst)
+					break
+				}
 				if r.e.Pinned || inside || dd.Children[r.name] != nil || strings.Join(dst, "\x00") == strings.Join(r.path, "\x00") {
-					continue // collisions and moves into itself are outside the property
+					continue // other collisions and moves into itself are outside the property
 				}
 				rep, ok := c.Do(rp.TMoveFile, append(nameF(r), rp.F(rp.FFileNewPath, rp.FilePath(dst...)))...)
 				if !ok || rep.Err != 0 {
